@@ -289,7 +289,8 @@ def handle (op : String) (c i : Json) : Except String (Json × String) := do
     let optStr (j : Json) : Except String (Option Str) := if J.isNull j then pure none else do pure (some (← J.str j).toList)
     let fs ← (← J.arr (← J.key c "frames")).mapM fun fj => do
       let sigs ← (← J.arr (← J.key fj "sigs")).mapM fun sj => do
-        pure ({ sg := ← sgOf (← J.key sj "sg"), comment := ← optStr (← J.key sj "comment") } : WSig)
+        let vals ← (← J.arr (← J.key sj "values")).mapM fun e => do pure ((← J.int (← J.idx e 0)), (← J.str (← J.idx e 1)).toList)
+        pure ({ sg := ← sgOf (← J.key sj "sg"), comment := ← optStr (← J.key sj "comment"), values := vals } : WSig)
       pure ({ bo := ← boOf (← J.key fj "bo"), sigs := sigs, moreSenders := (← J.strList (← J.key fj "more")).map String.toList,
               comment := ← optStr (← J.key fj "comment") } : WFrame)
     pure (J.obj [("core", J.ofStrList ((writeCore fs).map String.ofList))], "ok")
